@@ -84,7 +84,7 @@ def events():
 
 
 _VARIANTS = {}
-PATTERNS = ("all", "even_none", "first_none")
+PATTERNS = ("all", "even_none", "first_none", "two_recordings")
 
 
 def events_variant(pattern):
@@ -92,6 +92,13 @@ def events_variant(pattern):
     grouping is defined by the comparison function alone."""
     if pattern == "all":
         return events()
+    if pattern == "two_recordings" and pattern not in _VARIANTS:
+        # every second event belongs to another recording: similarity is the comparison function's business alone
+        other = recording(name="r2", path="/data/r2.wav", duration=100.0)
+        _VARIANTS[pattern] = [
+            data.SoundEvent(uuid=se.uuid, recording=other if i % 2 else se.recording, geometry=se.geometry)
+            for i, se in enumerate(events())
+        ]
     if pattern not in _VARIANTS:
         drop = (lambda i: i % 2 == 0) if pattern == "even_none" else (lambda i: i == 0)
         _VARIANTS[pattern] = [
